@@ -267,6 +267,10 @@ func (x *FnExec) applyContractSig(in ssa.Instruction, con *Contract, calleeName 
 		// fresh(e) also means below the new frontier
 		x.collectFresh(e.E, envPost, na, &posts)
 	}
+	for _, e := range con.Assumed {
+		posts = append(posts, envPost.EvalBool(e.E))
+		x.ctx.Note("assumed clause of " + short + ": " + e.Src)
+	}
 	st.reach = x.ctx.Define("R", SBool, And(st.reach, And(posts...)))
 	if con.Trusted {
 		x.eng.usedTrusted(con.Key)
